@@ -68,6 +68,34 @@ def translate():
         "failed_panic_ms": dur("failedQuicDcidPanicTtl"), "failed_max_ms": dur("failedQuicDcidMaxTtl"),
         "failed_max_shift": _const(pool_src, "failedQuicDcidMaxBackoffShift", "packet_sniffer_pool.go"),
     })
+    # guards of the session-key / fingerprint byte parsing (control/packet_sniffer_pool.go).  A shape the patterns
+    # do not recognise is NOT fatal: the last known values are used for the model (so that the harness still finds a
+    # failing input if there is one) and the broken tie is reported.
+    kf = {"fp_minlen": 7, "fp_dcid_extra": 1, "fp_scid_extra": 0, "key_minlen": 7, "key_dcid_extra": 0, "cid_max": 20}
+    kf_problems = []
+    m_fp = re.search(r"func parseQuicInitialFingerprint\(.*?\n}\n", pool_src, re.S)
+    m_key = re.search(r"func NewPacketSnifferKey\(.*?\n}\n", pool_src, re.S)
+
+    def grab(body, pat, name, conv=lambda m: int(m.group(1))):
+        m = re.search(pat, body) if body else None
+        if not m:
+            kf_problems.append(name)
+            return
+        kf[name] = conv(m)
+    fpb = m_fp.group(0) if m_fp else None
+    kb = m_key.group(0) if m_key else None
+    grab(fpb, r"if len\(data\) < (\d+) \{", "fp_minlen")
+    grab(fpb, r"if len\(data\) < pos\+dstLen(\+\d+)? \{", "fp_dcid_extra", lambda m: int(m.group(1) or 0))
+    grab(fpb, r"if len\(data\) < pos\+srcLen(\+\d+)? \{", "fp_scid_extra", lambda m: int(m.group(1) or 0))
+    grab(kb, r"IsLikelyQuicInitialPacket\(data\) && len\(data\) >= (\d+)", "key_minlen")
+    grab(kb, r"if len\(data\) >= pos\+dstLen(\+\d+)? \{", "key_dcid_extra", lambda m: int(m.group(1) or 0))
+    grab(pool_src, r"dstConn \[(\d+)\]byte", "cid_max")
+    if fpb and not ("dstLen > len(sig.dstConn)" in fpb and "srcLen > len(sig.srcConn)" in fpb and "srcLen := int(data[pos])" in fpb):
+        kf_problems.append("fingerprint-shape")
+    if kb and not re.search(r"dstLen > 0 && dstLen <= %d" % kf["cid_max"], kb):
+        kf_problems.append("key-shape")
+    c.update(kf)
+    translate.problems = kf_problems
     # where the sniff deadline is computed: fixed once in the constructor, every read armed with that value
     sn = rd("component/sniffing/sniffer.go")
     m_ctor = re.search(r"func NewStreamSniffer\(.*?\n}\n", sn, re.S)
@@ -99,7 +127,7 @@ def gen_statements():
     body = src[src.index("Open Scope N_scope.") + len("Open Scope N_scope."):]
     out = ["(* GENERATED from C06_Props.v by tools/c06.py: the theorem statements as Props, for the proof files. *)",
            "From Coq Require Import List NArith Bool Arith.", "From Dae.gen Require Import C06_Extracted.",
-           "From Dae Require Import C06_Spec C06_Model C06_Async C06_Session C06_Clock.", "Import ListNotations.", "Open Scope N_scope.", ""]
+           "From Dae Require Import C06_Spec C06_Model C06_Async C06_Session C06_Clock C06_Key.", "Import ListNotations.", "Open Scope N_scope.", ""]
     for m in re.finditer(r"(Theorem|Example)\s+(\w+)\s*:(.*?)\nProof\. exact \w+\. Qed\.|(Definition\s+\w+.*?\.)\n", body, re.S):
         if m.group(4):
             mo = re.match(r"Definition\s+(\w+)_open\s*:\s*Prop\s*:=(.*)\.$", m.group(4), re.S)
@@ -667,6 +695,49 @@ def sess_to_coq(case, meta, res):
 
 
 
+def initial_header(rng, dl, sl):
+    """a well-formed QUIC Initial long header with the given connection-id lengths, plus a little payload"""
+    flags = 0xc0 | rng.randrange(4) | (rng.randrange(4) << 2)
+    ver = rng.choice([b"\x00\x00\x00\x01", b"\x6b\x33\x43\xcf", rbytes(rng, 4)])
+    tok = rbytes(rng, rng.choice([0, 0, 3]))
+    return bytes([flags]) + ver + bytes([dl]) + rbytes(rng, dl) + bytes([sl]) + rbytes(rng, sl) + varint(len(tok)) + tok + varint(20) + rbytes(rng, rng.choice([0, 2, 6]))
+
+
+def gen_key_cases(rng, thorough):
+    """(a) every truncation of valid Initial datagrams over DCID/SCID lengths, (b) random mutations"""
+    out = []
+    if thorough:
+        combos = [(d, s) for d in range(21) for s in range(21)]
+    else:
+        combos = [(d, s) for d in (0, 1, 8, 19, 20) for s in (0, 1, 8, 20)] + [(rng.randint(0, 20), rng.randint(0, 20)) for _ in range(6)]
+    for dl, sl in combos:
+        out.append(({"kind": "key", "d": initial_header(rng, dl, sl).hex(), "prefixes": True}, {"dl": dl, "sl": sl, "family": "truncations"}))
+    for _ in range(400 if thorough else 50):
+        b = bytearray(initial_header(rng, rng.randint(0, 20), rng.randint(0, 20)))
+        mode = rng.choice(["flip", "dl", "sl", "cut", "random", "type"])
+        if mode == "flip":
+            b[rng.randrange(len(b))] ^= 1 << rng.randrange(8)
+        elif mode == "dl":
+            b[5] = rng.choice([21, 22, 255, 20, 0, len(b) - 6, max(0, len(b) - 7)]) & 255
+        elif mode == "sl":
+            p = 6 + b[5]
+            if p < len(b):
+                b[p] = rng.choice([21, 255, 20, max(0, len(b) - p - 1), len(b) - p]) & 255
+        elif mode == "cut":
+            b = b[:rng.choice([6 + b[5], 7 + b[5], 6, 7, 5])]
+        elif mode == "random":
+            b = bytearray(bytes([rng.choice([0xc0, 0xc3, 0xcf, 0x80, 0xd0, 0x40])]) + rbytes(rng, rng.randint(0, 50)))
+        else:
+            b[0] = rng.randrange(256)
+        out.append(({"kind": "key", "d": bytes(b).hex(), "prefixes": rng.random() < 0.3}, {"family": mode}))
+    return out
+
+
+def key_to_coq(case, meta, res):
+    return "(AKey (Build_key_case %s [%s]))" % (H(bytes.fromhex(case["d"])), "; ".join("(%d, %d)" % (n, c) for n, c in zip(res["ns"], res["codes"])))
+
+
+
 # ----------------------------------------------------------------------------------------------
 # cases -> Coq
 # ----------------------------------------------------------------------------------------------
@@ -754,16 +825,38 @@ def quic_to_coq(case, meta, res):
                vlib.cbool(meta["honest"])))
 
 
+def ensure_workspace():
+    """A run against another tree (VERIF_REPO) works in a private copy of coq/ under /var/tmp; if a sweep of
+    /var/tmp removed it in mid-run, put it back (copy, regenerate, rebuild the comparison functions)."""
+    if not getattr(vlib, "ALT_RUN", False):
+        return False
+    if os.path.exists(os.path.join(vlib.COQ, "C06_Check.vo")) and os.path.isdir(os.path.join(vlib.COQ, "gen")):
+        return False
+    import subprocess
+    os.makedirs(vlib.COQ, exist_ok=True)
+    subprocess.run(["rsync", "-a", "--exclude", "cases/", "--exclude", ".lock*", os.path.join(vlib.VERIF, "coq") + "/", vlib.COQ + "/"], check=False)
+    try:
+        translate()
+        gen_statements()
+    except RuntimeError:
+        pass
+    vlib.coq_make(["C06_Check.vo"])
+    log("private coq workspace had vanished; restored")
+    return True
+
+
 def run_batch(sc, binary, items, tag, scale=None):
     """items: list of (case, meta). `binary` = (sniffing test binary, control test binary).
     Returns (errors: {idx: [codes]}, sigs, results, err)"""
     bin_sniff, bin_ctl = binary
     results = [None] * len(items)
-    for kind_is_sess, b, test in ((False, bin_sniff, "TestVerifC06"), (True, bin_ctl, "TestVerifC06Udp")):
-        idx = [i for i, (c, _) in enumerate(items) if (c["kind"] == "sess") == kind_is_sess]
+    for kinds, b, test in ((("tcp", "quic", "async"), bin_sniff, "TestVerifC06"), (("sess",), bin_ctl, "TestVerifC06Udp"),
+                           (("key",), bin_ctl, "TestVerifC06Key")):
+        kind_is_sess = kinds[0]
+        idx = [i for i, (c, _) in enumerate(items) if c["kind"] in kinds]
         if not idx:
             continue
-        inp, outp = sc.path("c06_%s_%d.in" % (tag, kind_is_sess)), sc.path("c06_%s_%d.out" % (tag, kind_is_sess))
+        inp, outp = sc.path("c06_%s_%s.in" % (tag, kind_is_sess)), sc.path("c06_%s_%s.out" % (tag, kind_is_sess))
         with open(inp, "w") as f:
             for i in idx:
                 f.write(json.dumps(items[i][0]) + "\n")
@@ -778,8 +871,8 @@ def run_batch(sc, binary, items, tag, scale=None):
             results[i] = r
     terms = []
     for (c, m), r in zip(items, results):
-        terms.append({"tcp": tcp_to_coq, "quic": quic_to_coq, "async": async_to_coq, "sess": sess_to_coq}[c["kind"]](c, m, r))
-    text = ("From Coq Require Import List NArith Bool.\nFrom Dae Require Import C06_Spec C06_Model C06_Async C06_Session C06_Clock C06_Check.\n"
+        terms.append({"tcp": tcp_to_coq, "quic": quic_to_coq, "async": async_to_coq, "sess": sess_to_coq, "key": key_to_coq}[c["kind"]](c, m, r))
+    text = ("From Coq Require Import List NArith Bool.\nFrom Dae Require Import C06_Spec C06_Model C06_Async C06_Session C06_Clock C06_Key C06_Check.\n"
             "From Coq Require String.\nImport String.StringSyntax.\nImport ListNotations.\nOpen Scope string_scope.\nOpen Scope N_scope.\n"
             "Definition cases : list acase := [\n" + ";\n".join(terms) + "\n].\n"
             "Definition R := Eval vm_compute in map check_case cases.\nPrint R.\n"
@@ -788,6 +881,8 @@ def run_batch(sc, binary, items, tag, scale=None):
     # clean one) and must not overwrite each other's case files
     cname = "C06_cases_%d_%s" % (os.getpid(), tag)
     ok, outtxt = vlib.coq_eval(cname, text, timeout=1800)
+    if not ok and ensure_workspace():
+        ok, outtxt = vlib.coq_eval(cname, text, timeout=1800)
     try:
         os.remove(os.path.join(vlib.COQ, "cases", cname + ".v"))
     except OSError:
@@ -832,6 +927,10 @@ def matcher_of(case, meta, res, codes):
                 return "async-stale-dataerror-after-sniff-timeout"
             if case["drain"] != "read" and len(res.get("relay") or "") // 2 < sent:
                 return "async-outstanding-read-swallows-relay-bytes"
+    elif case["kind"] == "key":
+        if 7 in codes:
+            return "quic-key-fingerprint-parse-panics"
+        return "quic-key-fingerprint-parse-differs"
     elif case["kind"] == "sess":
         if 13 in codes and not (set(codes) & {1, 4, 6, 7}):
             if meta.get("ver") == "v2":
@@ -860,8 +959,16 @@ def shrink(sc, binary, case, meta, want, res0, codes0):
         sent = sum(len(e["d"]) // 2 for e in c["script"])
         return len(r.get("relay") or "") // 2 < sent
     lost0 = lost(case, res0)
-    key = {"tcp": "script", "async": "script", "quic": "dgrams", "sess": "steps"}[case["kind"]]
+    key = {"tcp": "script", "async": "script", "quic": "dgrams", "sess": "steps", "key": "d"}[case["kind"]]
     cur = json.loads(json.dumps(case))
+    if case["kind"] == "key":
+        # shortest failing truncation of the datagram, alone
+        full = bytes.fromhex(case["d"])
+        for n in range(len(full) + 1):
+            cand = {"kind": "key", "d": full[:n].hex(), "prefixes": False}
+            if fails(cand, meta):
+                return cand, meta, best["res"], best["codes"]
+        return cur, meta, best["res"], best["codes"]
     if case["kind"] == "sess":
         return cur, meta, best["res"], best["codes"]
     rounds = 0
@@ -897,6 +1004,19 @@ def jsonable_meta(meta):
 def main(argv):
     args = vlib.main_args(argv)
     out = vlib.Outcome(PID, args.tier, args.seed)
+    _violation = out.violation
+
+    def violation(*a, **kw):
+        os.makedirs(out.replay_dir, exist_ok=True)          # the private output directory may have been swept
+        return _violation(*a, **kw)
+    out.violation = violation
+    _finish = out.finish
+
+    def finish(*a, **kw):
+        os.makedirs(os.path.dirname(out.replay_path("x")), exist_ok=True)
+        os.makedirs(os.path.join(getattr(vlib, "OUTDIR", vlib.VERIF), "evidence"), exist_ok=True)
+        return _finish(*a, **kw)
+    out.finish = finish
     rng = vlib.rng_for(args.seed, PID)
     n_tcp, n_quic, n_async, n_sess = (220, 36, 24, 40) if args.tier == "quick" else (5000, 1200, 300, 600)
 
@@ -907,6 +1027,12 @@ def main(argv):
         out.violation("translate", {"broken": str(e)}, "constant extraction from the repository failed: %s" % e, no_failing_input=True)
         out.coverage = {"obligations": 0, "discharged": 0, "evaluations": 0, "distinct_nontrivial": 0}
         return out.finish()
+    if getattr(translate, "problems", None):
+        out.violation("translate_guards", {"broken": "guard expressions of NewPacketSnifferKey / parseQuicInitialFingerprint no longer have the shape the translator reads",
+                                           "unrecognised": translate.problems,
+                                           "consequence": "the model keeps the last known guards; the harness still compares the real functions with it on every truncation"},
+                      "control/packet_sniffer_pool.go: the length guards of the session-key / fingerprint parsing moved or changed (%s); the generated model is no longer tied to them" % ", ".join(translate.problems),
+                      no_failing_input=True)
     proof_ok, pinfo = vlib.proof_stage(out, PROPS, TARGETS)
     if not proof_ok:
         # a broken proof must not take the correspondence stage down with it (make stops at the first error):
@@ -933,8 +1059,16 @@ def main(argv):
 
         def build_ctl():
             try:
-                built["ctl"] = vlib.build_go_test_binary(sc, "control", ["control/common_test.go", "control/c06udp_test.go"],
-                                                         extra_overlay=lift_session_block(sc))
+                ov = lift_session_block(sc)
+                built["hpkt"] = True
+                built["ctl"] = vlib.build_go_test_binary(sc, "control", ["control/common_test.go", "control/c06udp_test.go", "control/c06udp_hpkt_test.go"],
+                                                         extra_overlay=ov)
+                if built["ctl"][0] is None:
+                    # the handlePkt-level history leans on the repository's own test scaffolding; without it the
+                    # rest of the harness must still build
+                    built["hpkt"] = False
+                    built["hpkt_log"] = built["ctl"][1][-1500:]
+                    built["ctl"] = vlib.build_go_test_binary(sc, "control", ["control/common_test.go", "control/c06udp_test.go"], extra_overlay=ov)
             except RuntimeError as e:
                 built["ctl"] = (None, str(e))
         th = threading.Thread(target=build_ctl)
@@ -949,6 +1083,30 @@ def main(argv):
                           "correspondence harness no longer builds against the repository", no_failing_input=True)
             cov.update(evaluations=0, distinct_nontrivial=0)
             return out.finish()
+        # the handlePkt-level history: an Initial-shaped datagram ending right after the DCID (and one byte later),
+        # sent repeatedly on one 4-tuple, through the real ControlPlane.handlePkt: no panic, every copy relayed
+        hpkt = {"available": bool(built.get("hpkt")), "cases": 0, "failed": 0}
+        if built.get("hpkt"):
+            hcases = [{"dcid_len": 8, "extra": e, "repeat": r} for e in (0, 1, 2) for r in (2, 4)]
+            hin, hout = sc.path("c06_hpkt.in"), sc.path("c06_hpkt.out")
+            with open(hin, "w") as f:
+                for hc in hcases:
+                    f.write(json.dumps(hc) + "\n")
+            rc, so, se, dt = vlib.run_go_harness(bin_ctl, "TestVerifC06Hpkt", hin, hout, timeout=600)
+            hres = [json.loads(l) for l in open(hout)] if os.path.exists(hout) else []
+            hpkt["cases"] = len(hres)
+            bad = [(hc, hr) for hc, hr in zip(hcases, hres) if hr.get("panics") or hr.get("errs") or hr.get("writes") != hr.get("sent")]
+            if rc != 0 and not bad:
+                bad = [(hcases[len(hres)] if len(hres) < len(hcases) else hcases[-1], {"process": "the harness process died (a panic outside recover)", "tail": (so + se)[-1500:]})]
+            if bad:
+                hpkt["failed"] = len(bad)
+                hc, hr = min(bad, key=lambda x: (x[0]["repeat"], x[0]["extra"]))
+                out.violation("handlepkt_truncated_initial", {"case": dict(hc, kind="hpkt"), "implementation": hr,
+                              "how": "TestVerifC06Hpkt: makeLikelyQuicInitialPayload(0x18) cut to 6+DCIDLen+extra bytes, handed `repeat` times to ControlPlane.handlePkt on one 4-tuple"},
+                              "handlePkt panics or withholds a datagram when an Initial-shaped datagram that ends right after its DCID is retransmitted on the same 4-tuple (%d of %d histories)" % (len(bad), len(hcases)),
+                              matchers=["handlepkt-truncated-initial-retransmitted"])
+        else:
+            out.notes.append("handlePkt-level history not run: the repository's test scaffolding it uses no longer builds with the harness: " + str(built.get("hpkt_log", ""))[-400:])
         items = []
         cdir = os.path.join(vlib.VERIF, "corpus", PID)
         ncorpus = 0
@@ -964,6 +1122,7 @@ def main(argv):
             gen.append(gen_quic_case(rng, i))
         for i in range(n_async):
             gen.append(gen_async_case(rng, i))
+        gen += gen_key_cases(rng, args.tier != "quick")
         try:
             gen += make_session_cases(sc, bin_sniff, rng, n_sess)
         except RuntimeError as e:
@@ -1063,6 +1222,8 @@ def main(argv):
             "quic-v2-initial-not-recognised": "a well-formed QUIC v2 (RFC 9369) Initial flight is not recognised: v2 Initial packets carry long-packet-type bits 0b01 and the client initial secret label is 'client in' for v2 as well",
         }
         DESCR.update({
+            "quic-key-fingerprint-parse-panics": "NewPacketSnifferKey / parseQuicInitialFingerprint / ObserveQuicInitial (control/packet_sniffer_pool.go) index past the end of a truncated or malformed Initial-shaped datagram (Go panics)",
+            "quic-key-fingerprint-parse-differs": "the session key DCID or the connection fingerprint taken from a datagram differs from the structural reading of its QUIC long header",
             "sniff-deadline-not-fixed-at-construction": "a read of SniffTcp was armed with a deadline other than construction time + sniff timeout (e.g. re-armed as now + timeout before every read): the sniffing timeout no longer bounds the whole sniff, a drip-feeding client keeps SniffTcp and the TCP handler waiting N x gap (observable: the deadlines passed to SetReadDeadline, recorded by the scripted connection)",
             "async-stale-dataerror-after-sniff-timeout": "asynchronous fallback (reader without read deadlines): after the context deadline Sniffer.dataError keeps ctx.Err(); the first relay Read returns the buffered bytes with that stale error and the rest of the stream is never relayed",
             "async-outstanding-read-swallows-relay-bytes": "asynchronous fallback: the read left outstanding by the timed-out sniff completes after the relay has taken the buffer (TakeRelayPrefix / WriteTo); the client's next bytes land in the sniffer buffer and are never handed to the relay",
@@ -1070,6 +1231,7 @@ def main(argv):
             "udp-complete-flight-withheld": "UDP sniff session: datagrams of a complete flight are still withheld when the flight is over",
         })
         for mt, idxs in by_matcher.items():
+            os.makedirs(out.replay_dir, exist_ok=True)      # a private output directory may have been swept meanwhile
             i = idxs[0]
             case, meta = items[i]
             # smallest failing case of the class first, then greedy shrinking
@@ -1116,7 +1278,7 @@ def main(argv):
         kinds = {}
         for c, m in items:
             k = c["kind"] + ("/hello" if "hello" in m and c["kind"] == "tcp" else "/http" if "head" in m else "/" + str(m.get("mal") or ("honest-" + m.get("ver", ""))) if c["kind"] == "quic"
-                             else "/" + c["drain"] + "-" + c["sched"] if c["kind"] == "async" else "/" + str(m.get("style")) if c["kind"] == "sess" else "/other")
+                             else "/" + c["drain"] + "-" + c["sched"] if c["kind"] == "async" else "/" + str(m.get("style")) if c["kind"] == "sess" else "/" + str(m.get("family")) if c["kind"] == "key" else "/other")
             kinds[k] = kinds.get(k, 0) + 1
         sample_i = ncorpus
         cov.update(evaluations=n_eval, distinct_nontrivial=nontrivial, distinct_signatures=distinct,
@@ -1128,7 +1290,7 @@ def main(argv):
                    traces_validated_against_impl=n_eval - len(model_fail),
                    comparisons="per case: impl outcome/buffer/dataError/reads consumed/relay = model; model outcome and relay = spec expectation; impl outcome and relay = spec expectation; reported name occurs in the client's bytes; no panic; no over-read under the strict locator; not late; datagrams unaltered",
                    samples=[{"case": items[sample_i][0], "implementation_class": all_res.get(sample_i, {}).get("class")}],
-                   widened_search=widened, timing_retries=retry_stats,
+                   widened_search=widened, timing_retries=retry_stats, handlepkt_histories=hpkt,
                    open_statements=open_statements())
     return out.finish()
 
